@@ -1,5 +1,6 @@
 (* C19 — Active tags exclude exactly by the documented per-category logic. *)
-From BV Require Import Base UStr ActiveTag ActiveTagProofs.
+From BV Require Import Base UStr ActiveTag ActiveTagProofs TableFacts.
+From BVGen Require Import ActiveTagTables.
 
 (* the code's grouped loop = the documented formula: excluded iff for some category known to the
    provider the element has positive tags none of which matches the current value, or one of
@@ -43,3 +44,16 @@ Example schema_and_logic :
   should_exclude get [tag use b; tag use a] = false /\ should_exclude get [tag not_ a] = true /\
   should_exclude get [tag not_active b] = false /\ should_exclude (pget []) [tag use b] = false.
 Proof. vm_compute. repeat split. Qed.
+
+(* the tag schema the statement names, decided on the tables generated from tag_matcher.py (TableFacts.v spells the
+   words: use / not / active / not_active / only, separator '=', unknown categories ignored; on true yes / false no off) *)
+Theorem the_active_tag_schema_is_the_documented_one :
+  at_prefixes = doc_prefixes /\     (* use not active not_active only *)
+  at_negated = [false; true; false; true; false] /\ at_separator = doc_separator /\ at_ignore_unknown = true.
+Proof. exact active_tag_schema_is_the_documented_one. Qed.
+Print Assumptions the_active_tag_schema_is_the_documented_one.
+
+Theorem the_boolean_words_are_the_documented_ones :
+  bool_true_strings = doc_true_words /\ bool_false_strings = doc_false_words.     (* on true yes / false no off *)
+Proof. exact boolean_words_are_the_documented_ones. Qed.
+Print Assumptions the_boolean_words_are_the_documented_ones.
